@@ -112,6 +112,24 @@ def _nemesis(world: World, sched, op, rec, run):
         world._mock_obj = tz
         rec["reg"] = ("mock_tz", val)
         rec["reg_tok"] = _mock_token()
+    elif kind == "mock_ctx_enter":
+        # the other public way to set the override: `with pendulum.test_local_timezone(tz):` held open
+        # by the nemesis while the clients run; leaving the block is a second write (None)
+        tz = World.zone(val)
+        cm = pendulum.test_local_timezone(tz)
+        cm.__enter__()
+        world._mock_cm = cm
+        world._mock_obj = tz
+        rec["reg"] = ("mock_tz", val)
+        rec["reg_tok"] = _mock_token()
+    elif kind == "mock_ctx_exit":
+        cm = getattr(world, "_mock_cm", None)
+        if cm is not None:
+            world._mock_cm = None
+            cm.__exit__(None, None, None)
+            world._mock_obj = None
+            rec["reg"] = ("mock_tz", None)
+            rec["reg_tok"] = _mock_token()
     elif kind == "cal_fwd":
         calendar.setfirstweekday(val)
         rec["reg"] = ("cal_fwd", val)
